@@ -89,7 +89,9 @@ func NewIPTransport(config Config, a *accessory.Accessory, as ...*accessory.Acce
 		return nil, err
 	}
 
-	cfg.load(storage)
+	if err := cfg.load(storage); err != nil {
+		return nil, err
+	}
 
 	// The id is stored before the key pair of the device is stored under it. A first start
 	// which ends before the config is saved (see below) would otherwise leave an entity
